@@ -45,7 +45,15 @@ SPEC = {
         "tie = event traces of the real code judged by the same trace predicate (Hive/Spec/WorkerPool.lean) + forced schedules through the verif hooks whose outcome must equal the model's + independent Go oracle",
         "Go sync primitives' semantics (RWMutex, Cond, WaitGroup, buffered channels, select) as written down in the model",
         "Go toolchain, compiled Lean driver"],
-    "modelled": [],
-    "manifest": {"text": "", "note": "", "technique": ""},
-    "assumptions": [],
+    "modelled": [
+        "WorkerPool.Start (repaired), Submit, IsRunning, Shutdown, dispatcher, worker, workerReadLoop, handleShutdown; Task.run/markDone; Stack.Push/PopOrWait/Size/SignalShutdown; Counter.Update/WaitIsZero; Group.CreatePool/CreateGroup/WaitChildren (counter tree)",
+        "queue and dispatch channel are modelled as sets (pop/receive order is not part of the property)",
+        "NOT modelled: workerCount 0, panicking task functions, DebounceFunc, debug deadlock detection, Go's 'WaitGroup is reused before previous Wait has returned' panic, Group.Shutdown's isShutdown flag",
+        "Counter.Update with its subscriber chain and Start's spawn under the write lock are single atomic steps (justified by the locks held; see Hive/Model/WorkerPool.lean, Hive/Model/WorkerPoolGroup.lean)"],
+    "manifest": {
+        "text": "Lean theorems over every worker count >= 1, cancel-on-shutdown on/off, any number of client threads with arbitrary scripts of Submit (tasks submitting tasks to any depth) / Shutdown / Start / ShutdownComplete.Wait / WaitIsZero and every interleaving (invariants over all reachable configurations of a protocol model whose state contains the pool's own goroutines): C16_conservation (every trace satisfies the C16 trace predicate: each task decided/run/marked done at most once, never run when rejected, counter = accepted - finished in unit steps, decreases accounted for by finished runs or - cancel-on-shutdown after a Shutdown call - by tasks that never ran), C16_no_run_after_shutdown_complete, C16_group_wait (group counter = number of children with a non-zero counter; WaitChildren returns only when every pool below is at zero, arbitrary trees). Termination: full statement C16_statement is NOT satisfied by the code (C16_statement_fails_witness); proved part C16_shutdown_terminates_partial / C16_exactly_once_partial = every stuck configuration is good on all schedules without (a) a Submit between its running-check and its push when Shutdown switches the pool off, (b) a SignalShutdown broadcast while the dispatcher is between PopOrWait's condition and Wait, (c) a Start locking a stopped pool whose shutdown is incomplete. (a) and (b) have proved witness schedules that are replayed on the real code through verif hooks (known findings); Shutdown();Start() deadlock fixed (b9bfa1a). Tie: regenerated synchronisation skeletons as 22 decide-obligations; event traces of real goroutines (forced schedules, deterministic life cycles, stress over W 1..4 x cancel x modes x nesting; group trees) judged line by line by the Lean trace predicate and by an independent Go monitor; forced-schedule outcomes must equal the model's; independent Go oracle (per-task run counts, counter at quiescence, bounded waits).",
+        "note": "Trusted: Lean kernel; hand-written model Hive/Model/WorkerPool*.lean (tied by skeleton obligations + trace conformance + forced schedules, not by translation); Go sync primitive semantics as written in the model; atomicity of Counter.Update+subscribers and of Start's spawn; queue/channel order abstracted; worker count 0 and panicking tasks outside the model. The three hypotheses of the _partial termination theorem are ghost flags of the model (raced, lost, startRace).",
+        "technique": "Lean 4 invariant proofs over an interleaving protocol model (arbitrary thread pool, all schedules) + decidable trace predicates evaluated on recorded traces of the implementation + hook-forced witness schedules + regenerated sync skeletons",
+    },
+    "assumptions": ["0 < workerCount", "task functions terminate and do not panic", "only the modelled API is used on the pool (Submit/Start/Shutdown/ShutdownComplete.Wait/PendingTasksCounter.WaitIsZero, Group.CreatePool/CreateGroup/WaitChildren)"],
 }
